@@ -181,7 +181,7 @@ func VisitsAll(fn *ssa.Function, sel func(ssa.CallInstruction) bool, recv *ssa.P
 					}
 				}
 				if !passes {
-					return false, "the helper " + h.Name() + " loops over " + over + ", which is not " + rn, dyn, h, true
+					return false, "the helper " + FNm(h) + " loops over " + over + ", which is not " + rn, dyn, h, true
 				}
 				return true, "", dyn, h, true
 			}
